@@ -50,7 +50,7 @@ static int32_t g_alert;
     P(no_callback_returns_success_without_calling, IMPLIES(!WITH_CB, RET == PS_SUCCESS && gh_cb_calls == 0)) \
     P(callback_called_once_about_this_chain,       IMPLIES(WITH_CB, gh_cb_calls == 1 && gh_cb_ssl == &g_ssl && gh_cb_cert == &g_c0)) \
     P(callback_is_shown_the_pending_alert,         IMPLIES(WITH_CB, gh_cb_alert == (g_alert == SSL_ALERT_NONE ? 0 : g_alert))) \
-    P(callback_result_is_passed_through,           IMPLIES(WITH_CB, RET == g_in.cb_ret))
+    P(callback_result_is_passed_through,           IMPLIES(WITH_CB, RET == gh_cb_ret))
 
 int32 matrixUserCertValidator(ssl_t *ssl, int32 alert, psX509Cert_t *subjectCert, sslCertCb_t certValidator)
 __CPROVER_requires(ssl == &g_ssl && subjectCert == &g_c0 && alert == g_alert && certValidator == CB)
